@@ -270,6 +270,25 @@ CHECKS = {
         "checked relationally.",
         "DESIGN.md section 4, C17",
     ),
+    "C18": (
+        "exploration",
+        "property-based testing (Hypothesis) with artist readers and a "
+        "relational style oracle against a numpy reference",
+        "Generated datasets and assignments of dimensions to the eight "
+        "mappable properties (double mappings, fused dimensions, explicit "
+        "orders, dropped all-NaN labels), iteration or aggregation of the "
+        "rest, join_across_missing, palettes, x as variable; histogram and "
+        "heat-map modes.  From the returned axes every slice with data must "
+        "be exactly one line in the panel named by its row/col labels with "
+        "exactly its data, styles must be a consistent and (while defaults "
+        "last) injective function of the mapped coordinates, aggregated and "
+        "histogram lines must equal numpy's, heat-map meshes (also the "
+        "default RGBA colouring, decoded through HSV) must show z on (y, x), "
+        "and the input must be unchanged.",
+        "Lines matched by data; histogram mode only with whole-label NaNs; "
+        "artists, not pixels.",
+        "DESIGN.md section 4, C18",
+    ),
     "C19": (
         "exploration",
         "property-based testing (Hypothesis) against an exact Fraction "
